@@ -1062,6 +1062,12 @@ func (g *generatorObject) delegate(v Value) Value {
 }
 
 func (g *generatorObject) tryCallDelegated(fn func() (Value, bool)) (ret Value, done bool) {
+	// The delegate's method is called natively, from outside the generator's own frames: count it as a call
+	// level, so that a delegation chain (function* g() { yield* g() }) is bounded by SetMaxCallStackSize and
+	// ends with a StackOverflowError instead of exhausting the Go stack.
+	vm := g.val.runtime.vm
+	vm.pushCtx()
+	defer vm.popCtx()
 	state := g.state
 	g.state = genStateExecuting
 	ex := g.val.runtime.try(func() {
